@@ -10,3 +10,5 @@ import DiplomatModel.Props.C07
 #print axioms DiplomatModel.Props.C07.dart_prim_some
 #print axioms DiplomatModel.Props.C07.sameWire_refl
 #print axioms DiplomatModel.Props.C07.dart_ty_agree
+#print axioms DiplomatModel.Props.C07.kt_native_arity
+#print axioms DiplomatModel.Props.C07.kt_native_ret_prim
